@@ -39,6 +39,7 @@ type World struct {
 	noret map[*ssa.Function]bool
 	catalog *Catalog
 	raise   *Raise
+	tkai    *TKAI
 	recording, mayRecord map[*ssa.Function]bool
 }
 
